@@ -438,7 +438,7 @@ func (h *Harness) At(point string, obj any, a, b int64) {
 
 // waitRecv waits until controller `to` has finished handling msg.
 func (h *Harness) waitRecv(pred func(recvEvent) bool) (recvEvent, error) {
-	deadline := time.After(10 * time.Second)
+	deadline := time.After(45 * time.Second)
 	for {
 		select {
 		case ev := <-h.events:
@@ -456,7 +456,7 @@ func (h *Harness) waitEndpoint() error {
 	select {
 	case <-h.epDone:
 		return nil
-	case <-time.After(10 * time.Second):
+	case <-time.After(45 * time.Second):
 		return infraError{"watchdog: endpoint did not handle a message"}
 	}
 }
